@@ -311,7 +311,7 @@ PLAN["C08"] = dict(
 )
 
 PLAN["C09"] = dict(
-    technique="model-based PBT: name-addr values and lists rendered from a structured spec (display name, angle/bare URI, parameters with LWS/folds, quoted strings with commas/escapes), expected decomposition known by construction; through ParseNameAddrPVal, ParseAll*Values and ParseHeaders",
+    technique="model-based PBT: name-addr values and lists rendered from a structured spec (display name, angle/bare URI, parameters with LWS/folds, quoted strings with commas/escapes), expected decomposition known by construction; through ParseNameAddrPVal, ParseAll*Values and ParseHeaders; plus exhaustive enumeration of all small specs (display forms x URI forms x 0..2 parameters with every blank placement x header kinds x entry points)",
     level_text=("Exploration: From/To/Contact/P-Asserted-Identity/Route/Record-Route values: none/token/quoted display names "
                 "(escapes, commas, '<' inside quotes), URI in angle brackets (may hold ';' '?' ',') or bare, 0..4 parameters in any "
                 "case with token/quoted/empty/missing values and LWS/folds around ';' '=' ',', Contact '*'; lists of 1..4 values in "
@@ -323,8 +323,10 @@ PLAN["C09"] = dict(
     level_note=_MODEL_NOTE,
     rule=("case = (header kind, headers x values specs, entry point, surrounding LWS, capacity, Expires header); non-trivial = "
           "a value has a display name or parameters and contains LWS or a quoted string, or the case has >= 2 values; distinct by case hash"),
-    quick=[dict(test="TestC09Rapid", checks=25000, shards=12, counts=["C09.nameaddr"])],
-    thorough=[dict(test="TestC09Rapid", checks=2000000, shards=16, counts=["C09.nameaddr"], timeout=5400)],
+    quick=[dict(test="TestC09Rapid", checks=25000, shards=12, counts=["C09.nameaddr"]),
+           dict(kind="enum", test="TestC09Enum", timeout=600)],
+    thorough=[dict(test="TestC09Rapid", checks=2000000, shards=16, counts=["C09.nameaddr"], timeout=5400),
+              dict(kind="enum", test="TestC09Enum", solo=True, timeout=3000, env={"VERIF_DEPTH": 1})],
 )
 
 PLAN["C10"] = dict(
